@@ -151,7 +151,7 @@ class Interp:
         key = label
         visits = dict(visits)
         visits[key] = visits.get(key, 0) + 1
-        if visits[key] > 3:
+        if visits[key] > getattr(self, "max_visits", 3):
             raise Limit("loop in interpreted function %s (block %s)" % (f.demangled[:120], label))
         instrs = f.blocks[label]
         # phis first (parallel)
@@ -497,6 +497,12 @@ class Interp:
         if pred in ("eq", "ne") and is_ptr(a) and is_ptr(b) and a[1] != b[1] and "alloca" in (a[1][0], b[1][0]) and a[1][0] in ("param", "alloca", "global") \
                 and b[1][0] in ("param", "alloca", "global") and a[2] == 0 and b[2] == 0:
             return ("c", 1 if pred == "ne" else 0)
+        # two addresses inside one object with known offsets
+        if is_ptr(a) and is_ptr(b) and a[1] == b[1] and isinstance(a[2], int) and isinstance(b[2], int) and a[2] != b[2]:
+            r = {"eq": False, "ne": True, "slt": a[2] < b[2], "sle": a[2] <= b[2], "sgt": a[2] > b[2], "sge": a[2] >= b[2],
+                 "ult": a[2] < b[2], "ule": a[2] <= b[2], "ugt": a[2] > b[2], "uge": a[2] >= b[2]}.get(pred)
+            if r is not None:
+                return ("c", 1 if r else 0)
         if a == b and pred in ("eq", "sle", "sge", "ule", "uge"):
             return ("c", 1)
         if a == b and pred in ("ne", "slt", "sgt", "ult", "ugt"):
